@@ -7,6 +7,7 @@ Three kinds of case (one Coq sum type):
   R  RollingSummary (through Distribution::new_summary / record_samples) under a mock quanta clock
 Doubles travel as 16 hex digits (bit patterns)."""
 import struct
+from decimal import Decimal
 
 from .core import Prop, cq_N, cq_bool, cq_list, cq_opt
 
@@ -25,6 +26,36 @@ def nextafter(x, up):
         return 5e-324 if up else -5e-324
     b += 1 if (x > 0) == up else -1
     return struct.unpack("<d", struct.pack("<q", b))[0]
+
+
+def rust_display(x):
+    """Rust's `format!("{}", x)` for f64: shortest round-trip digits, positional, no exponent."""
+    if x != x:
+        return "NaN"
+    if x in (float("inf"), float("-inf")):
+        return "inf" if x > 0 else "-inf"
+    t = format(Decimal(repr(x)), "f")
+    if "." in t:
+        t = t.rstrip("0").rstrip(".")
+    if x == 0 and str(x).startswith("-") and not t.startswith("-"):
+        t = "-" + t
+    return t
+
+
+def f64max(a, b):
+    if a != a:
+        return b
+    if b != b:
+        return a
+    return a if b < a else b
+
+
+def f64min(a, b):
+    if a != a:
+        return b
+    if b != b:
+        return a
+    return a if a < b else b
 
 
 INF = float("inf")
@@ -67,35 +98,37 @@ class C15(Prop):
     quick_cases = 3000
     thorough_cases = 60000
     shard = 200
-    rule = ("three case kinds in equal shares. H: 0..6 bounds from a 17-value pool (+-inf, +-0, subnormal, neighbours, NaN rarely; "
+    rule = ("four case kinds (30% H, 30% D, 30% R, 10% Q). H: 0..6 bounds from a 17-value pool (+-inf, +-0, subnormal, neighbours, NaN rarely; "
             "ascending with repeats, 15% shuffled) and 1..10 record/record_many operations (batches of 0..6) whose samples are bounds, "
             "their neighbours, pool values or NaN, observed after every operation. D: 0..6 overrides (Full/Prefix/Suffix, patterns cut "
             "from the name raw or pre-sanitised, or random segments incl. digits, non-ASCII), optional global buckets, one name, through "
             "DistributionBuilder directly or through PrometheusBuilder+render. R: bucket_count 1..5, duration in {1,2,5,7,10}ns, 1..14 "
             "add/snapshot operations with time steps on and around bucket and window edges (10% of cases with a backward step). "
+            "Q: one quantile (a 30-value list incl. 0, 1, out-of-range, -0.0, NaN, +-inf, 0.29, 0.57, 1e-7, or k/1000, k/100000). "
             "Non-trivial = at least one operation / override; distinct = distinct (case, output)")
     design_ref = "DESIGN.md 4 C15"
     technique = ("Coq proof over an abstract float interface (FloatOps) about hand-written models of Histogram, Matcher/DistributionBuilder "
                  "and RollingSummary; differential correspondence against the real code with the model evaluated on Coq primitive binary64 floats")
-    level_text = ("Theorems (Coq, any FloatOps instance with a transitive <=, all bound lists / sample sequences / batchings): Histogram model — "
-                  "with ascending bounds every bucket equals the number of samples <= its bound after any sequence of record/record_many "
-                  "(C15_bucket_counts), monotone in the bound and in time, every bucket <= count = number of samples, NaN counted in no bucket, "
-                  "any two batchings of the same samples give identical buckets and count (C15_batch_equals_single); the model's outputs satisfy "
-                  "the executable property for all histogram cases (C15_spec_ok_on_model_partial). DistributionBuilder model — the chosen bounds "
-                  "belong to a matching held override of minimal kind (Full < Prefix < Suffix), else global, else summary; type says histogram iff a "
-                  "histogram is built; sanitised prefix/full/proper-suffix matchers match the sanitised name; the pre-fix suffix rule is refuted. "
-                  "RollingSummary model — count covers all adds; a snapshot merges exactly the buckets begun after now-n*dur; a new bucket covers its sample. "
-                  "All three models are tied to /repo by running the real code and the model (on Coq primitive binary64 floats) on the same cases each run, "
-                  "and the executable property (spec_ok: per-bound counts, override choice by a sort-free specification, window bounds must/may and "
-                  "quantile range) is evaluated on every implementation output.")
-    level_note = ("Partial: (a) spec_ok_on_model is proved for histogram cases only; (b) override precedence is proved between kinds, not the "
-                  "pattern order within a kind, and Matcher::matches = Spec.applies is not proved; whole-name suffix soundness not proved; "
-                  "(c) the window clauses (no sample older than the window, every sample newer than now-n*dur+dur, truncate never evicts an "
-                  "unexpired bucket) are NOT proved for all histories - they are checked per case by spec_ok (window_ok); the while loop that "
-                  "finds a new bucket's begin is modelled by its closed form. That Coq's primitive floats satisfy the order hypotheses is not "
-                  "proved (would need FloatAxioms). DDSketch is abstract: only snapshot count and min*(1-eps) <= q <= max*(1+eps), eps = 1.0001e-4, "
-                  "are checked; the sketch's own min()/max() are not compared (sketches-ddsketch 0.3.0 merge ignores non-positive-only sketches "
-                  "when updating min/max).")
+    level_text = ("Theorems (Coq, any FloatOps instance with a transitive <=; all inputs, histories, configurations, no size bounds). "
+                  "Histogram: with ascending bounds every bucket equals the number of samples <= its bound after any record/record_many sequence "
+                  "(C15_bucket_counts), monotone in bound and time, every bucket <= count = number of samples, NaN in no bucket, all batchings "
+                  "agree (C15_batch_equals_single). Overrides: the DistributionBuilder model (HashMap insert of sanitised matchers, sort by the "
+                  "derived Ord, first match) equals a sort-free specification (C15_override_model_meets_spec); the winner is the least applying "
+                  "matcher in the derived Ord Full < Prefix < Suffix then pattern, with the bounds of the last override filed under it, else global, "
+                  "else summary (C15_override_precedence); Matcher::matches = Spec.applies; type says histogram iff a histogram is built; prefix / "
+                  "full / suffix (incl. whole-name) soundness after sanitisation; the pre-fix suffix rule refuted. Rolling summary: for every history "
+                  "with non-decreasing timestamps the invariant (buckets descending and >= dur apart, <= n, each holding exactly the finite samples "
+                  "of its [begin, begin+dur)) holds, a snapshot contains no sample older than now-n*dur and every sample >= now-n*dur+dur (also as "
+                  "multiset counts), truncate never evicts a retained bucket, count counts all adds (C15_window, C15_window_truncate_never_evicts). "
+                  "C15_spec_ok_on_model: the models' outputs satisfy the executable property for all histogram, override and rolling-summary cases. "
+                  "All models are tied to /repo by running the real code and the model (on Coq primitive binary64 floats) on the same cases each "
+                  "run; spec_ok is evaluated on every implementation output.")
+    level_note = ("Not proved: that Coq's primitive floats satisfy the order hypotheses (would need FloatAxioms). The while loop that finds a new "
+                  "bucket's begin is modelled by its closed form. DDSketch is abstract: only the snapshot count and min*(1-eps) <= q <= max*(1+eps), "
+                  "eps = 1.0001e-4, are checked; the sketch's own min()/max() are not compared (sketches-ddsketch 0.3.0 merge ignores "
+                  "non-positive-only sketches when updating min/max). The quantile-label case kind (Quantile::new / parse_quantiles) is differential "
+                  "plus per-case spec_ok only: float Display formatting is an oracle input computed by the python side and cross-checked against "
+                  "the driver's own rendering; f64::max/min ties (-0.0 vs 0.0) are modelled as observed (the constant operand wins).")
     assumptions = ["u64 counters and nanosecond instants do not overflow",
                    "quanta mock clock stands for the real clock",
                    "the theorems are stated for every FloatOps instance whose <= is transitive and in which a value not <= itself (NaN) is <= nothing; "
@@ -203,11 +236,31 @@ class C15(Prop):
             ops.append(["P", t + rng.pick([0, 1, dur, maxdur - 1, maxdur])])
         return dict(k="R", n=n, dur=dur, ops=ops)
 
+    QVALS = [0.0, 0.5, 0.9, 0.95, 0.99, 0.999, 0.9999, 1.0, 1.2, -1.0, -0.0, 0.25, 0.1, 0.7, 1e-7, 0.123456789, 0.29, 0.57,
+             0.05, 0.005, 0.3, 0.07, 0.14, 0.55, 1.0000000000000002, 0.9999999999999999, 5e-324, 1e300, INF, -INF]
+
+    def gen_quant(self, rng):
+        r = rng.below(10)
+        if r < 5:
+            q = rng.pick(self.QVALS)
+        elif r < 6:
+            return self.mk_quant(NAN)
+        elif r < 8:
+            q = rng.below(1001) / 1000.0
+        else:
+            q = rng.below(100001) / 100000.0
+        return self.mk_quant(hx(q))
+
+    def mk_quant(self, qh):
+        q = unhx(qh)
+        v = f64min(f64max(q, 0.0), 1.0)
+        return dict(k="Q", q=qh, fc=rust_display(v), fd=rust_display(v * 100.0))
+
     def gen(self, rng, n):
         cases = []
         for i in range(n):
-            k = i % 3
-            cases.append(self.gen_hist(rng) if k == 0 else self.gen_dist(rng) if k == 1 else self.gen_roll(rng))
+            k = i % 10
+            cases.append(self.gen_quant(rng) if k == 9 else self.gen_hist(rng) if k % 3 == 0 else self.gen_dist(rng) if k % 3 == 1 else self.gen_roll(rng))
         return cases
 
     # ------------------------------------------------------------------ implementation side
@@ -223,6 +276,8 @@ class C15(Prop):
         if c["k"] == "D":
             toks = ["%s:%s:%s" % (k, p.encode("utf-8").hex(), ",".join(b)) for k, p, b in c["ovs"]]
             return "D %d %s %s | %s" % (c["san"], ",".join(c["glob"]) if c["glob"] else "-", c["name"].encode("utf-8").hex(), " ".join(toks))
+        if c["k"] == "Q":
+            return "Q " + c["q"]
         toks = [("A%d:%s" % (o[1], o[2])) if o[0] == "A" else ("P%d" % o[1]) for o in c["ops"]]
         return "R %d %d | %s" % (c["n"], c["dur"], " ".join(toks))
 
@@ -244,6 +299,10 @@ class C15(Prop):
             if ty not in ("h", "s") or not (d == "S" or d.startswith("H:")):
                 return dict(panic="unparsable: " + line[:200])
             return dict(ty=ty, d=None if d == "S" else d[2:].split(","))
+        if c["k"] == "Q":
+            v, l, fc, fd = line.split()
+            un = lambda h: "" if h == "-" else bytes.fromhex(h).decode("utf-8")
+            return dict(v=v, label=un(l), fc=un(fc), fd=un(fd))
         outs = []
         for t in line.split():
             if t[0] == "a":
@@ -262,6 +321,8 @@ class C15(Prop):
             ovs = ["((%s, %s), %s)" % (KINDS[k], cq_str(p), cq_fl(b)) for k, p, b in c["ovs"]]
             return "(cdist true %s %s %s %s)" % (cq_bool(c["san"]), cq_opt(None if c["glob"] is None else cq_fl(c["glob"])),
                                                  cq_str(c["name"]), cq_list(ovs))
+        if c["k"] == "Q":
+            return "(cquant %s %s %s)" % (cq_f(c["q"]), cq_str(c["fc"]), cq_str(c["fd"]))
         ops = [("radd %s %s" % (cq_N(o[1]), cq_f(o[2]))) if o[0] == "A" else ("rsnap %s" % cq_N(o[1])) for o in c["ops"]]
         return "(croll %s %s %s)" % (cq_N(c["n"]), cq_N(c["dur"]), cq_list(ops))
 
@@ -275,6 +336,8 @@ class C15(Prop):
             return "(ohist %s %s)" % (cq_fl(o["bounds"]), cq_list(snaps))
         if c["k"] == "D":
             return "(odist %s %s)" % (cq_bool(o["ty"] == "h"), cq_opt(None if o["d"] is None else cq_fl(o["d"])))
+        if c["k"] == "Q":
+            return "(oquant %s %s %s %s)" % (cq_f(o["v"]), cq_str(o["label"]), cq_str(o["fc"]), cq_str(o["fd"]))
         xs = []
         for t in o["outs"]:
             if t[0] == "a":
@@ -312,6 +375,8 @@ class C15(Prop):
             for i, (k, p, b) in enumerate(ovs):
                 for j in range(len(p)):
                     cands.append(dict(c, ovs=ovs[:i] + [[k, p[:j] + p[j + 1:], b]] + ovs[i + 1:]))
+        elif c["k"] == "Q":
+            pass
         else:
             ops = c["ops"]
             for i in range(len(ops)):
